@@ -323,7 +323,10 @@ pub fn cli_images(args: &[String]) -> i32 {
         // size (the same pairs in the same or a permuted order are the same input whatever the
         // iterator promises about its length)
         let permutable = w.spec.kind != crate::pma::Kind::LeftmostFirst && w.spec.patterns.len() > 1;
-        let opaque = (rs >> 7) & 1 == 1;
+        // how the second build receives its patterns: references / behind an iterator without
+        // size hint / owned objects produced lazily / inline objects by value
+        let feed = ((rs >> 7) & 3) as u8;
+        let opaque = feed != 0;
         if permutable || opaque {
             let mut rng = crate::rng::Rng::new(rs ^ 0x9E3779B9);
             let mut order: Vec<usize> = (0..w.spec.patterns.len()).collect();
@@ -331,7 +334,7 @@ pub fn cli_images(args: &[String]) -> i32 {
                 rng.shuffle(&mut order);
             }
             let a = crate::pma::build(&w.spec);
-            let b2 = crate::pma::build_ordered_opt(&w.spec, &order, || {}, opaque);
+            let b2 = crate::pma::build_ordered_feed(&w.spec, &order, || {}, feed);
             let same = match (&a, &b2) {
                 (Ok(x), Ok(y)) => x.serialize() == y.serialize() && x.same(&**y),
                 // both fail: fine (messages may name a pattern or an index)
@@ -341,7 +344,7 @@ pub fn cli_images(args: &[String]) -> i32 {
             if !same {
                 let mut g = perm_fail.lock().unwrap();
                 if g.as_ref().map(|f| k < f.0).unwrap_or(true) {
-                    *g = Some((k, rs, json!({"spec": w.spec, "order": order, "opaque": opaque})));
+                    *g = Some((k, rs, json!({"spec": w.spec, "order": order, "feed": feed})));
                 }
                 return true;
             }
@@ -352,7 +355,7 @@ pub fn cli_images(args: &[String]) -> i32 {
         let replay_dir = arg(args, "--replay-dir").unwrap_or("/verif/replays").to_string();
         let path = format!("{replay_dir}/C14-perm-{seed}-{k}.json");
         let doc = json!({"engine": "perm", "property": "C14", "class": "build-order-dependent", "run": k, "run_seed": rs,
-            "detail": "building again from the same pattern/value pairs (in the recorded order, through an iterator without a size hint when `opaque`) gives a different automaton", "scenario": doc});
+            "detail": "building again from the same pattern/value pairs (in the recorded order; `feed`: 0 references, 1 no size hint, 2 owned objects produced lazily, 3 inline objects by value) gives a different automaton", "scenario": doc});
         std::fs::create_dir_all(&replay_dir).ok();
         std::fs::write(&path, serde_json::to_string_pretty(&doc).unwrap()).unwrap_or_else(|e| harness_error(&format!("write {path}: {e}")));
         println!("VIOLATION property=C14 replay={path}");
@@ -378,9 +381,9 @@ pub fn replay_perm(doc: &serde_json::Value) -> i32 {
         .unwrap_or_else(|e| harness_error(&format!("replay file: bad spec: {e}")));
     let order: Vec<usize> = serde_json::from_value(doc["scenario"]["order"].clone())
         .unwrap_or_else(|e| harness_error(&format!("replay file: bad order: {e}")));
-    let opaque = doc["scenario"]["opaque"].as_bool().unwrap_or(false);
+    let feed = doc["scenario"]["feed"].as_u64().unwrap_or(if doc["scenario"]["opaque"].as_bool().unwrap_or(false) { 1 } else { 0 }) as u8;
     let a = crate::pma::build(&spec);
-    let b = crate::pma::build_ordered_opt(&spec, &order, || {}, opaque);
+    let b = crate::pma::build_ordered_feed(&spec, &order, || {}, feed);
     let same = match (&a, &b) {
         (Ok(x), Ok(y)) => x.serialize() == y.serialize() && x.same(&**y),
         (Err(_), Err(_)) => true,
